@@ -9,7 +9,7 @@ from .common import LEAN, REPO, write_if_changed
 sys.path.insert(0, str(Path(__file__).resolve().parent.parent))
 
 
-ALL = ("scopemap",)
+ALL = ("scopemap", "builtin")
 
 
 def regenerate(which=("scopemap",)) -> dict:
@@ -22,4 +22,7 @@ def regenerate(which=("scopemap",)) -> dict:
         info = scopemap.extract(REPO)
         write_if_changed(gen / "ScopeMap.lean", scopemap.render(info))
         out["scopemap"] = info
+    if "builtin" in which:
+        from extract import builtin_checks
+        write_if_changed(gen / "BuiltinChecks.lean", builtin_checks.render(REPO))
     return out
